@@ -61,6 +61,8 @@ impl LuaDecl {
 
 pub open spec fn keys_ok() -> bool { vstd::std_specs::hash::obeys_key_model::<LuaDeclId>() }
 
+// ---- shape of the code under proof, detected by unit.py from the repository text on every run (see unit.py: _detect) ----------------------
+//%%C13_CONFIG%%
 //@@include c13_scope/scope_spec.rs
 //@@include c13_scope/scope_lemmas.rs
 
@@ -74,6 +76,7 @@ impl LuaDeclarationTree {
     //@@ LuaDeclarationTree::visit_child_scope
     //@@ LuaDeclarationTree::search_scope_children
     //@@ LuaDeclarationTree::visit_visible_decls
+    //%%C13_LOOP_BODY%%
     //@@ LuaDeclarationTree::find_scope
     //@@ LuaDeclarationTree::find_local_decl::visitor
     //@@ LuaDeclarationTree::get_env_decls::visitor
@@ -205,7 +208,7 @@ impl LuaDeclarationTree {
     //@@ LuaDeclarationTree::get_env_decls
 }
 
-//@@include c13_scope/witness.rs
+//%%C13_WITNESSES%%
 
 fn main() {}
 }
